@@ -9,10 +9,10 @@ fn main() {
     s.push_str("pub fn array_cap_supported(cap: usize) -> bool { matches!(cap, ");
     s.push_str(&caps.iter().map(|c| c.to_string()).collect::<Vec<_>>().join(" | "));
     s.push_str(") }\n");
-    s.push_str("pub fn run_array(cap: usize, tree: &Node<'static, SimDevice>, bytes: &[u8], dev: &mut SimDevice, ctx: &mut Context) -> Option<(scpi::error::Result<()>, Vec<u8>)> {\n    match cap {\n");
+    s.push_str("pub fn run_array(cap: usize, tree: &Node<'static, SimDevice>, bytes: &[u8], dev: &mut SimDevice, ctx: &mut Context, prefill: &[u8]) -> Option<(scpi::error::Result<()>, Vec<u8>)> {\n    match cap {\n");
     for c in &caps {
         s.push_str(&format!(
-            "        {c} => {{ let mut f = arrayvec::ArrayVec::<u8, {c}>::new(); let r = tree.run(bytes, dev, ctx, &mut f); let o = crate::alloc::harness(|| f.as_slice().to_vec()); Some((r, o)) }}\n"
+            "        {c} => {{ let mut f = arrayvec::ArrayVec::<u8, {c}>::new(); if f.try_extend_from_slice(prefill).is_err() {{ return None; }} let r = tree.run(bytes, dev, ctx, &mut f); let o = crate::alloc::harness(|| f.as_slice().to_vec()); Some((r, o)) }}\n"
         ));
     }
     s.push_str("        _ => None,\n    }\n}\n");
